@@ -966,7 +966,7 @@ class Query(Runner):
                     # per the documentation the response pit id is most up-to-date
                     CompositeContext.put(pit_op, parsed.get("pit_id"))
 
-                if results.get("hits") / size > page:
+                if results.get("hits") / size > page and page < total_pages:
                     body["search_after"] = last_sort
                 else:
                     # body needs to be un-mutated for the next iteration (preferring to do this over a deepcopy at the start)
@@ -1029,7 +1029,7 @@ class Query(Runner):
                     CompositeContext.put(pit_op, parsed.get("pit_id"))
 
                 after_key = parsed["after_key"]
-                if isinstance(after_key, dict):
+                if isinstance(after_key, dict) and page < total_pages:
                     composite_agg_body["after"] = after_key
                 else:
                     # body needs to be un-mutated for the next iteration (preferring to do this over a deepcopy at the start)
